@@ -31,9 +31,35 @@ fn one(out: &mut dyn std::io::Write, id: &str, syn: &str, words: &[String], rang
     if ms > st[3] as u128 { st[3] = ms as u64; }
     if verdict != "ok" || slow {
         let msg = match &res { Outcome::Panic(m) | Outcome::OtherError(m) => m.clone(), _ => String::new() };
-        writeln!(out, "BADCASE {} {} {} {} {} {} {} {}", if verdict != "ok" { verdict } else { "slow" }, id, syn, words.join(";"),
+        // a slow case whose nesting is deep and whose width forces every level onto several lines belongs to the listed
+        // super-linear class (each level is formatted in several variants): named apart so that the list can identify it
+        let narrow = words.iter().any(|w| w.starts_with("column_width=") && w["column_width=".len()..].parse::<usize>().map_or(false, |n| n <= 20));
+        let slow_kind = if narrow && nesting_depth(src) >= 8 { "slow-nested-narrow" } else { "slow" };
+        writeln!(out, "BADCASE {} {} {} {} {} {} {} {}", if verdict != "ok" { verdict } else { slow_kind }, id, syn, words.join(";"),
                  range.map_or("-".to_string(), |(a, b)| format!("{}:{}", a, b)), ms, hex(msg.as_bytes()), hex(src.as_bytes())).unwrap();
     }
+}
+
+/// how deep brackets and block keywords nest in the text (a lexical estimate: strings and comments are not skipped)
+fn nesting_depth(src: &str) -> usize {
+    let (mut d, mut mx) = (0isize, 0isize);
+    let b = src.as_bytes();
+    let mut i = 0;
+    while i < b.len() {
+        let c = b[i] as char;
+        if c == '(' || c == '{' || c == '[' { d += 1; }
+        else if c == ')' || c == '}' || c == ']' { d -= 1; }
+        else if c.is_ascii_alphabetic() || c == '_' {
+            let st = i;
+            while i < b.len() && ((b[i] as char).is_ascii_alphanumeric() || b[i] == b'_') { i += 1; }
+            match &src[st..i] { "function" | "do" | "repeat" | "if" => d += 1, "end" | "until" => d -= 1, _ => {} }
+            mx = mx.max(d);
+            continue;
+        }
+        mx = mx.max(d);
+        i += 1;
+    }
+    mx.max(0) as usize
 }
 
 pub fn main(args: &[String]) {
